@@ -104,20 +104,6 @@ func zzStubPrimitiveDecode(md *toml.MetaData, prim toml.Primitive, v interface{}
 			x.Type = "zzlistener"
 		}
 	case *struct {
-		Channels   []string `toml:"channel"`
-		Services   []string `toml:"services"`
-		Categories []string `toml:"categories"`
-	}:
-		f := zzCfg.filters[zzFiltIdx]
-		zzFiltIdx++
-		x.Channels = f.channels
-		if f.hasCat {
-			x.Categories = f.categories
-		}
-		if f.hasSvc {
-			x.Services = f.services
-		}
-	case *struct {
 		Type     string `toml:"type"`
 		Director string `toml:"director"`
 		Port     string `toml:"port"`
@@ -139,8 +125,22 @@ func zzStubPrimitiveDecode(md *toml.MetaData, prim toml.Primitive, v interface{}
 			x.Name = zzCfg.serviceNames[i]
 		}
 	default:
-		// a [[port]] entry: whatever (named or anonymous) struct Run decodes it into, the
-		// fields are found by their toml tags; keys absent from the entry are not assigned
+		// [[filter]] and [[port]] entries: whatever (named or anonymous) struct Run decodes them
+		// into, the fields are found by their toml tags; keys absent from the entry are not
+		// assigned (so a decode target hoisted out of the loop keeps the previous entry's value)
+		if tags := zzAssignByTag(v, "toml", nil); tags == "channel,services,categories" {
+			f := zzCfg.filters[zzFiltIdx]
+			zzFiltIdx++
+			kv := map[string]interface{}{"channel": f.channels}
+			if f.hasCat {
+				kv["categories"] = f.categories
+			}
+			if f.hasSvc {
+				kv["services"] = f.services
+			}
+			zzAssignByTag(v, "toml", kv)
+			return nil
+		}
 		p := zzCfg.ports[zzPortIdx]
 		kv := map[string]interface{}{}
 		if p.hasPort {
